@@ -5,6 +5,7 @@ static struct cmd cmds[] = {
   {"c01", cmd_c01},
   {"c11", cmd_c11},
   {"c10", cmd_c10},
+  {"c15", cmd_c15},
   {NULL, NULL}
 };
 int main(int argc, char **argv) {
